@@ -322,6 +322,10 @@ def batch(prop, tier, seed, workers, nruns, budget_s=None):
     desc = mod.describe()
     samples = [m["sample"] for m in runs if "sample" in m]
     log_digest = D.sha([[m["idx"], m["plan_sha"], m["log"]] for m in runs])
+    if os.environ.get("BBSIM_DUMP_LOGS"):
+        with open(os.environ["BBSIM_DUMP_LOGS"], "w") as f:
+            for m in runs:
+                f.write(json.dumps([m["idx"], m["plan_sha"], m["log"], m["nviol"]]) + "\n")
     ev = {
         "property_id": prop, "tier": tier, "seed": seed, "level": "exploration",
         "coverage": {
@@ -387,6 +391,9 @@ def main(argv=None):
     ap.add_argument("--dump-logs", action="store_true")
     a = ap.parse_args(argv)
     seed = int(os.environ.get("VERIF_SEED", "0") or 0)
+    if a.prop == "selftest":
+        from . import selftest
+        return selftest.main(a, seed)
     if a.prop == "C19":
         from . import c19
         return c19.main(a, seed)
